@@ -2,7 +2,7 @@
 From Coq Require Import ZArith List Bool Lia.
 From DV Require Import Model.PyPrims Model.C13Model Proofs.C13Lists Proofs.C13Lockstep Proofs.C13Suffix
   Proofs.C13Blocks Proofs.C13Routes Proofs.C13Attach Proofs.C13Newick Proofs.C13Namespace Proofs.C13Final
-  Proofs.C13Examples.
+  Proofs.C13Examples Proofs.C13Fuel.
 Import ListNotations.
 Open Scope Z_scope.
 
@@ -174,9 +174,40 @@ Qed.
 Lemma S_hypotheses_satisfiable :
   (forall m z ot m' z', sk_parse_tree (lower_with []) m z = Ok (ot, m', z') ->
      (exists pre, z_toks z = pre ++ z_toks z') /\ (exists r, m_ns m' = m_ns m ++ r))
+  /\ (forall m z, sk_parse_tree (lower_with []) m z <> OutOfFuel)
   /\ (forall s, upper_with [] (upper_with [] s) = upper_with [] s).
 Proof.
-  split.
+  split; [|split].
   - intros m z ot m' z' H. exact (sk_parse_tree_props (lower_with []) m z ot m' z' H).
+  - exact (sk_parse_tree_nf (lower_with [])).
   - exact upper_ascii_idem.
+Qed.
+
+(* the fuel of the NEXUS drivers suffices *)
+Lemma S_nexus_fuel : forall (T : Type) (lower upper : str -> str)
+         (parse_tree : mapper -> tz -> res (option T * mapper * tz))
+         (set_label : T -> option str -> T) (add_comments : T -> list str -> T),
+  (forall m z ot m' z', parse_tree m z = Ok (ot, m', z') -> exists pre, z_toks z = pre ++ z_toks z') ->
+  (forall m z, parse_tree m z <> OutOfFuel) ->
+  forall (nc : nscfg) (ns0 : list str) (d : doc),
+  snd (y_items_from_stream T lower upper parse_tree set_label add_comments nc false
+                           (doc_fuel d) (core_init nc ns0 d) (regs_init nc)) <> OutOfFuel
+  /\ ((forall s, upper (upper s) = upper s) ->
+      (forall t, In t (fst d) -> is_sets_kw (Some (upper (t_text t))) = false) ->
+      forall tlf, nexus_read T lower upper parse_tree set_label add_comments (mkCfg nc tlf) ns0 d <> OutOfFuel).
+Proof.
+  intros T lower upper parse_tree set_label add_comments HC HN nc ns0 d.
+  assert (Y : snd (y_items_from_stream T lower upper parse_tree set_label add_comments nc false
+                           (doc_fuel d) (core_init nc ns0 d) (regs_init nc)) <> OutOfFuel).
+  { apply (y_items_nf T lower upper parse_tree set_label add_comments nc false HC HN).
+    unfold len, core_init, doc_tz, tz_init, doc_fuel. simpl. lia. }
+  split; [exact Y|].
+  intros HU NS tlf R.
+  pose proof (S_nexus_loops_agree T lower upper parse_tree set_label add_comments HC HU nc tlf ns0 d NS) as A.
+  cbv zeta in A.
+  destruct (snd (y_items_from_stream T lower upper parse_tree set_label add_comments nc false
+                           (doc_fuel d) (core_init nc ns0 d) (regs_init nc))) as [[k' g']|e|].
+  - destruct A as [s [E _]]. congruence.
+  - congruence.
+  - apply Y. reflexivity.
 Qed.
